@@ -237,6 +237,20 @@ def run_gen(spec: dict) -> dict:
         real(nx, ny, ma, mask, rx, ry, seed)
         nxt = int(libc().rand())
         calls["n"] += 1
+        # verdict of this bisection step, with the expressions of `poisson` (float glue): 0 within tolerance, 1 below, 2 above
+        fa = frames[-1].get("args")
+        if fa is not None:
+            m2 = np.asarray(mask) | S.centered_disk_mask((nx, ny), fa[2])
+            if getattr(f, "crop_corner", False):
+                x, y = np.mgrid[:nx, :ny]
+                x = np.maximum(abs(x - nx / 2), 0)
+                x /= x.max()
+                y = np.maximum(abs(y - ny / 2), 0)
+                y /= y.max()
+                m2 = m2 * (np.sqrt(x ** 2 + y ** 2) < 1)
+            with np.errstate(all="ignore"):
+                actual = nx * ny / m2.sum()
+            frames[-1].setdefault("verdicts", []).append(0 if abs(actual - fa[3]) < f.tol else 1 if actual < fa[3] else 2)
         frames[-1].update({"nx": int(nx), "ny": int(ny), "ma": int(ma), "seed": int(seed), "rx": flat_dy(np.asarray(rx)),
                            "ry": flat_dy(np.asarray(ry)), "rows": pack_rows(np.asarray(mask)), "next": nxt,
                            "ncalls": frames[-1].get("ncalls", 0) + 1})
@@ -249,7 +263,8 @@ def run_gen(spec: dict) -> dict:
         orig_poisson = f.poisson
 
         def per_frame(*a, **k):
-            frames.append({})
+            frames.append({"args": [int(a[0]), int(a[1]), float(a[2]), float(a[3])] if len(a) >= 4 else None,
+                           "default_slopes": f.slopes is None})
             return orig_poisson(*a, **k)
 
         f.poisson = per_frame
